@@ -279,6 +279,13 @@ def r5_ordering(repo, rep):
 
 
 def run(repo, rep, tier):
+  from mmsa.props import c10
+  sub = type(rep)(rep.prop, rep.tier, rep.repo)
+  c10.r3_r4_results(repo, sub)
+  for i in sub.instances:
+    if i.rule == 'R4/fresh-heap' and ('exhaustive_search' in (i.func or '') or 'exhaustive_search' in (i.subject or '') or i.status == 'violation'):
+      i.rule = 'R4/fresh-heap'
+      rep.instances.append(i)
   res = r1_r2_r4(repo, rep)
   if res is not None:
     view, loops, T, C = res
